@@ -410,6 +410,16 @@ pub fn build(a: &mut Allocator, t: &Tree, root: Tid, mode: BuildMode) -> NodePtr
 
 /// interesting atoms for tree-hash / representation purposes
 pub fn gen_atom(s: &mut Src<'_>) -> Vec<u8> {
+    // rarely: atoms around size thresholds in the thousands (1 KiB message
+    // limit, 4 KiB, 8 KiB serialization length classes, tens of KiB)
+    if s.below(400) == 399 {
+        let n = *s.pick(&[1024usize, 1025, 4095, 4096, 4097, 8191, 8192, 10_000, 70_000]);
+        let fill = s.u8();
+        let mut v = vec![fill; n];
+        v[0] = s.u8();
+        v[n - 1] = s.u8();
+        return v;
+    }
     match s.weighted(&[6, 10, 3, 3, 4, 2, 1]) {
         0 => vec![],
         1 => {
